@@ -28,7 +28,10 @@ error at its `k`-th call, and the error carries everything it had been told incl
 
 "(a) On success every algorithm, alone or wrapped in the compaction and replace adapters, calls the hook's finish
     exactly once and makes no other call after it
-    [(a1) alone: the run returns and `FinishOnceLast`; (a2) behind `Replace`: whenever the run returns;
+    [(a1) alone: the run returns and `FinishOnceLast`; (a2) behind `Replace`: the run returns and the hook has
+     been told a list of ops followed by `finish` (no algorithm ever calls `replace`, so the adapter's two
+     `debug_assert_eq!` cannot fire on the valid raw stream; Lemmas/ReplaceTotal.lean), and — without any
+     hypothesis on what was told — whenever the run returns the stream is `FinishOnceLast`;
      (a3) behind `Compact`, (a4) behind `Compact` over `Replace` (the stack of `capture_diff`): the run returns and
      the hook has been told a list of ops followed by `finish` — for every clock `w`].
 (b) If any hook call (including finish) returns an error, the diff returns precisely that error and makes no
@@ -41,15 +44,18 @@ error at its `k`-th call, and the error carries everything it had been told incl
 (d) and a hook that does not override replace receives a delete followed by an insert [and nothing after a
     failing delete]."
 
-Hypothesis: `RangesInBounds` for (a1), (a3), (a4) (totality); none for (a2), (b), (c), (d).
+Hypothesis: `RangesInBounds` for (a1), (a2), (a3), (a4) (totality); none for (b), (c), (d).
 Not covered by this theorem: arbitrary user hooks other than the recording hook in (a)/(b) (the recording hook
 observes the complete call sequence, which is what the clauses speak about; `C01.subrange_is_shifted_slice_hooks`
-and Lemmas/HookFail.lean `diffWith_sim` are the hook-generic tools); totality of the run behind `Replace` alone
-(a2 is the "on success" form of the text). -/
+and Lemmas/HookFail.lean `diffWith_sim` are the hook-generic tools). -/
 theorem C08_statement (alg : Alg) (E : Env) (repair : Bool) (os oe ns ne : Nat) (w : World) :
     -- (a)
     (RangesInBounds E os oe ns ne →
       (∃ r w', rawTrace alg E os oe ns ne w = .ok (r, w') ∧ FinishOnceLast r.trace) ∧
+      (∃ (rs : RState) (out : List Op) (w' : World),
+        diffWith alg E (replaceHook recHook) os oe ns ne ({}, {}) w =
+          .ok ((rs, { trace := out.map Call.op ++ [.finish] }), w') ∧
+        FinishOnceLast (out.map Call.op ++ [.finish])) ∧
       (∃ (ops : List Op) (w' : World), diffWith alg E (compactHook E repair recHook) os oe ns ne ([], {}) w =
           .ok ((ops, { trace := ops.map Call.op ++ [.finish] }), w') ∧
         FinishOnceLast (ops.map Call.op ++ [.finish])) ∧
@@ -89,7 +95,8 @@ theorem C08_statement (alg : Alg) (E : Env) (repair : Bool) (os oe ns ne : Nat) 
     obtain ⟨r, w', h, hv⟩ := rawTrace_total_valid alg E os oe ns ne w hr
     have hf := C08.finish_once_last E os oe ns ne r.trace hv
     obtain ⟨⟨ops, w1, h1, -⟩, ⟨buf, rs, out, w2, h2, -, -⟩⟩ := compact_stacks_total alg E repair os oe ns ne w hr
-    exact ⟨⟨r, w', h, hf⟩, ⟨ops, w1, h1, fol ops⟩, ⟨buf, rs, out, w2, h2, fol out⟩,
+    obtain ⟨-, outR, rsR, wR, -, -, hR, -⟩ := C08.replace_alone_total alg E os oe ns ne w hr
+    exact ⟨⟨r, w', h, hf⟩, ⟨rsR, outR, wR, hR, fol outR⟩, ⟨ops, w1, h1, fol ops⟩, ⟨buf, rs, out, w2, h2, fol out⟩,
       fun a r2 w3 hrun => replace_stack_finish alg E os oe ns ne w r w' h hf a r2 w3 hrun⟩
   · intro native k
     refine ⟨?_, ?_, ?_, ?_, ?_⟩
